@@ -150,6 +150,6 @@ pub fn run(ctx: &Ctx) {
     ctx.set_rule("E1: templates of 1..8 top-level nodes (text segments over full Unicode with 0..4 whitespace/other chars at their edges; outputs, assign, capture, increment, if/unless/case, for/tablerow, break/continue, raw with markup look-alikes, comment with side-effecting bodies), nested <= 3, every delimiter side independently trimmed, 0..3 inner blanks; probes of x,y,z and two counters appended. E2: single tag x 16 marker combinations x whitespace kinds on all four adjacent positions. Oracle: reference interpreter (rule T). Non-trivial = a trim marker actually removes whitespace, or a raw/comment body contains a look-alike; distinct = distinct source.");
     ctx.assume("blank characters other than space, tab, CR, LF are never generated adjacent to a trimmed side (statement lists spaces, tabs, line breaks)");
     ctx.exhaustive("single_tag", 7 * 16 * 7 * 7 * 7 * 7, single_tag, oracle);
-    ctx.random("plain", ctx.pick(20_000, 300_000), || gen::plain_text(40).prop_map(|text| Plain { text }), plain_oracle);
-    ctx.random("templates", ctx.pick(60_000, 1_500_000), strategy, oracle);
+    ctx.random("plain", ctx.pick(60_000, 300_000), || gen::plain_text(40).prop_map(|text| Plain { text }), plain_oracle);
+    ctx.random("templates", ctx.pick(250_000, 1_500_000), strategy, oracle);
 }
